@@ -1,10 +1,13 @@
 module gaeaverif/harness
 
-go 1.21
+go 1.22.0
+
+toolchain go1.23.5
 
 require (
 	github.com/XiaoMi/Gaea v0.0.0
 	github.com/shopspring/decimal v1.3.1
+	golang.org/x/tools v0.29.0
 )
 
 require (
@@ -57,8 +60,10 @@ require (
 	go.uber.org/zap v1.10.0 // indirect
 	golang.org/x/arch v0.0.0-20201008161808-52c3e6f60cff // indirect
 	golang.org/x/crypto v0.0.0-20210921155107-089bfa567519 // indirect
-	golang.org/x/net v0.0.0-20220722155237-a158d28d115b // indirect
-	golang.org/x/sys v0.0.0-20220722155257-8c9f86f7a55f // indirect
+	golang.org/x/mod v0.22.0 // indirect
+	golang.org/x/net v0.34.0 // indirect
+	golang.org/x/sync v0.10.0 // indirect
+	golang.org/x/sys v0.29.0 // indirect
 	golang.org/x/text v0.3.7 // indirect
 	golang.org/x/time v0.0.0-20181108054448-85acf8d2951c // indirect
 	google.golang.org/genproto v0.0.0-20180817151627-c66870c02cf8 // indirect
@@ -71,3 +76,7 @@ require (
 replace github.com/XiaoMi/Gaea => /repo
 
 replace github.com/dgrijalva/jwt-go => github.com/golang-jwt/jwt v3.2.2-0.20210713063142-860640e8862d+incompatible
+
+// golang.org/x/tools (the typed translator of C07) asks for a newer golang.org/x/net than the one
+// the repository is built with; nothing it is used for here needs it
+replace golang.org/x/net v0.34.0 => golang.org/x/net v0.0.0-20220722155237-a158d28d115b
